@@ -247,3 +247,37 @@ def fn_catalogue(info) -> list[tuple[str, bool]]:
             seen.add(r["lit"])
             out.append((r["lit"], r["dflt"]))
     return out
+
+
+# the same characters in different roles, at sizes around typical cache / interning thresholds --------------
+ALIAS_LENGTHS = [1, 2, 8, 16, 31, 32, 33, 47, 48, 49, 63, 64, 65, 100, 127, 128, 129, 255, 256, 257, 1000, 4100]
+
+
+def alias_string(rng: random.Random, n: int) -> str:
+    base = rng.choice(["<b>&x</b>", "a<&>\"'", "&lt;i&gt;", "x & y < z > w", "</script><img src=x onerror=alert(1)>"])
+    s = (base * (n // len(base) + 1))[:n]
+    if n >= 4 and not any(c in s for c in "&<>"):
+        s = s[:-3] + "<&>"
+    return s
+
+
+def alias_trees(rng: random.Random, count: int):
+    """trees in which one and the same string occurs as HTML(), as plain text, as a _repr_html_ result and as plain /
+    HTML() attribute values, in varying orders (history- and aliasing-sensitive implementations show up here)"""
+    roles = ["text", "html", "robj"]
+    out = []
+    for _ in range(count):
+        s = alias_string(rng, rng.choice(ALIAS_LENGTHS))
+        order = [rng.choice(roles) for _ in range(rng.randint(2, 5))]
+        if "text" not in order:
+            order.append("text")
+        if "html" not in order:
+            order.insert(0, "html")
+        kids = [(r, s) for r in order]
+        if rng.random() < 0.5:
+            kids = [("tag", rng.choice(["span", "div", "p"]), rng.random() < 0.5, [], [k]) for k in kids]
+        attrs = []
+        if rng.random() < 0.6:
+            attrs = [("title", ("h", s)), ("alt", ("p", s))] if rng.random() < 0.5 else [("alt", ("p", s)), ("title", ("h", s))]
+        out.append(("tag", rng.choice(["div", "span", "section"]), rng.random() < 0.7, attrs, kids))
+    return out
